@@ -5,9 +5,9 @@
   Dialect decisions (each read off /repo or arrow-rs 59.2 and pinned by the correspondence runs):
   * integer `+ - *` and unary `-` WRAP (`BinaryExpr` uses `add_wrapping/sub_wrapping/mul_wrapping`
     unless `fail_on_overflow`; `NegativeExpr` uses `neg_wrapping`);
-  * `/` and `%` truncate toward zero, raise `div0` on a zero divisor and `overflow` on `MIN / -1`,
-    `MIN % -1` (arrow `div_checked` / `mod_checked`); a NULL operand gives NULL *without* looking at
-    the other operand (`NULL / 0 = NULL`);
+  * `/` and `%` truncate toward zero and raise `div0` on a zero divisor; `MIN / -1` raises `overflow`
+    (arrow `div_checked`), `MIN % -1` is 0 (arrow `rem` uses `mod_wrapping`); a NULL operand gives
+    NULL *without* looking at the other operand (`NULL / 0 = NULL`);
   * comparisons / `AND OR NOT` are Kleene three-valued; `IS [NOT] DISTINCT FROM` is two-valued;
   * `CASE` and `COALESCE` are lazy row by row (an unselected branch is never evaluated for that row);
     everything else evaluates all operands, so an error in any operand is an error of the row
@@ -78,9 +78,10 @@ def intDiv (w : Nat) (s : Bool) (x y : Int) : Except RtErr Val :=
   else if s && x = intMin w s && y = -1 then .error .overflow
   else .ok (.int w s (Int.tdiv x y))
 
+/-- arrow `rem`: `DivideByZero` on a zero divisor, otherwise `mod_wrapping` (so `MIN % -1 = 0`,
+    no overflow error — unlike `/`) -/
 def intMod (w : Nat) (s : Bool) (x y : Int) : Except RtErr Val :=
   if y = 0 then .error .div0
-  else if s && x = intMin w s && y = -1 then .error .overflow
   else .ok (.int w s (Int.tmod x y))
 
 def ordIs (op : BinOp) (o : Ordering) : Bool :=
@@ -208,16 +209,21 @@ def likeToks (esc : Option Char) : List Char → List PatTok
     else if c = '_' then .one :: likeToks esc cs
     else .ch c :: likeToks esc cs
 
-/-- backtracking matcher, structurally recursive on (pattern, then string) -/
+/-- does `f` accept some suffix of the string (the part left over after `%` swallowed a prefix)? -/
+def existsSuffix (f : List Char → Bool) : List Char → Bool
+  | [] => f []
+  | c :: cs => f (c :: cs) || existsSuffix f cs
+
+/-- backtracking matcher, structurally recursive on the pattern -/
 def likeMatch : List PatTok → List Char → Bool
-  | [], [] => true
-  | [], _ :: _ => false
-  | .any :: ps, [] => likeMatch ps []
-  | .any :: ps, c :: cs => likeMatch ps (c :: cs) || likeMatch (.any :: ps) cs
-  | .one :: _, [] => false
-  | .one :: ps, _ :: cs => likeMatch ps cs
-  | .ch _ :: _, [] => false
-  | .ch p :: ps, c :: cs => p == c && likeMatch ps cs
+  | [], s => s.isEmpty
+  | .any :: ps, s => existsSuffix (likeMatch ps) s
+  | .one :: ps, s => match s with
+    | [] => false
+    | _ :: cs => likeMatch ps cs
+  | .ch p :: ps, s => match s with
+    | [] => false
+    | c :: cs => p == c && likeMatch ps cs
 
 def asciiLower (c : Char) : Char := if 'A' ≤ c ∧ c ≤ 'Z' then Char.ofNat (c.toNat + 32) else c
 
